@@ -6,22 +6,13 @@ From CV Require C51.OMapProofs C51.BiMapProofs C51.PSetProofs C51.ITreeProofs.
 
 (* ================= ordered map (common/orderedmap) ================= *)
 
-(* Full-strength statement: a map that starts as the zero value answers every history exactly as
-   the association list in insertion order does. *)
-Definition C51_omap_statement : Prop := forall ops, om_run om_zero ops = sp_run [] ops.
-
-(* It does not hold on the unchanged tree: ForAnyKey on a never-written zero-value map. *)
-Theorem C51_omap_refuted : exists ops, om_run om_zero ops <> sp_run [] ops.
-Proof. exact OMapProofs.om_zero_refutes. Qed.
-Print Assumptions C51_omap_refuted.
-
-(* It holds for every history that does not ask ForAnyKey while `pairs` is still nil ... *)
-Theorem C51_omap_partial : forall ops,
-  om_guard om_zero ops = true -> om_run om_zero ops = sp_run [] ops.
+(* A map that starts as the zero value (OrderedMap{}, `pairs` nil until the first write) answers every
+   history exactly as the association list in insertion order does ... *)
+Theorem C51_omap_zero : forall ops, om_run om_zero ops = sp_run [] ops.
 Proof. exact OMapProofs.om_zero_refines. Qed.
-Print Assumptions C51_omap_partial.
+Print Assumptions C51_omap_zero.
 
-(* ... and without any restriction for maps created by orderedmap.New. *)
+(* ... and so does a map created by orderedmap.New. *)
 Theorem C51_omap_new : forall ops, om_run om_new ops = sp_run [] ops.
 Proof. exact OMapProofs.om_new_refines. Qed.
 Print Assumptions C51_omap_new.
@@ -105,13 +96,12 @@ Proof. exact ITreeProofs.search_all_exact. Qed.
 Print Assumptions C51_itree_search_all_exact.
 
 (* ================= non-vacuity ================= *)
-(* a guarded zero-value history with re-insertion, deletion and iteration *)
+(* a zero-value history: queries before the first write, then re-insertion, deletion and iteration *)
 Example C51_ex_omap :
-  let ops := [OSet 1 10; OSet 2 20; OSet 1 11; OForeach; ODelete 1; OSet 1 12; OForeach; OForAny 2; ONext 2] in
-  om_guard om_zero ops = true /\
-  om_run om_zero ops = [VOpt None; VOpt None; VOpt (Some 10); VList [(1, 11); (2, 20)]; VOpt (Some 11);
+  let ops := [OForAny 5; OForAll 5; OSet 1 10; OSet 2 20; OSet 1 11; OForeach; ODelete 1; OSet 1 12; OForeach; OForAny 2; ONext 2] in
+  om_run om_zero ops = [VBool false; VBool true; VOpt None; VOpt None; VOpt (Some 10); VList [(1, 11); (2, 20)]; VOpt (Some 11);
                         VOpt None; VList [(2, 20); (1, 12)]; VBool true; VPair (Some (1, 12))].
-Proof. vm_compute. split; reflexivity. Qed.
+Proof. vm_compute. reflexivity. Qed.
 
 Example C51_ex_bimap :
   bm_run bm_new [BInsert 1 10; BInsert 2 10; BGet 1; BGetInv 10; BInsert 2 20; BGetInv 10; BSize]
